@@ -13,6 +13,7 @@ package main
 // -kind popstale is the isolate stage of known finding c04-pop-precheck-local-read.
 
 import (
+	"encoding/json"
 	"flag"
 	"fmt"
 	"math/rand"
@@ -164,10 +165,17 @@ func clustersim(args []string) error {
 			if !one(zop{"set", kb, 0}, 3*time.Second) { // the key the DEL will find
 				return env("warm-up write failed")
 			}
-			cl.kids[ld].send("hold ready.advanced 1 wait.register 3")
+			cl.kids[ld].send("hold ready.advanced 1 wait.register 4")
 			if ln := cl.kids[ld].waitLine(5*time.Second, "ARMED "); !strings.HasPrefix(ln, "ARMED ") {
 				return env("arming failed")
 			}
+			warm := func() {
+				if c, err := dialResp(cl.redisPort(ld), 2*time.Second); err == nil {
+					c.do(6*time.Second, "set", keyPrefix+"warm", "b")
+					c.close()
+				}
+			}
+			go warm() // an idle 1-replica group has no Ready of its own: this write's Ready is the one that is held
 			if ln := cl.kids[ld].waitLine(5*time.Second, "HELD "); !strings.HasPrefix(ln, "HELD ") {
 				return env("raft goroutine was not held")
 			}
@@ -178,8 +186,10 @@ func clustersim(args []string) error {
 			// third registration (a write to the unmodelled key), when the first two are surely queued
 			time.Sleep(60 * time.Millisecond)
 			go func() {
+				// ... a DEL of a key that never exists (answer 0): if it ends up in the same batch, a
+				// swap with it is visible too (SET would get 0 instead of OK, the modelled DEL 0 instead of 1)
 				if c, err := dialResp(cl.redisPort(ld), 2*time.Second); err == nil {
-					c.do(6*time.Second, "set", keyPrefix+"warm", "b")
+					c.do(6*time.Second, "del", keyPrefix+"nokey")
 					c.close()
 				}
 			}()
@@ -188,6 +198,15 @@ func clustersim(args []string) error {
 				made++
 			}
 			cl.kids[ld].waitLine(2*time.Second, "RELEASED ")
+			cl.kids[ld].send("hits")
+			if ln := cl.kids[ld].waitLine(2*time.Second, "HITS "); strings.HasPrefix(ln, "HITS ") {
+				var hm map[string]int
+				if json.Unmarshal([]byte(ln[5:]), &hm) == nil {
+					counts[fmt.Sprintf("it%d_ready_published", it)] = hm["ready.published"]
+					counts[fmt.Sprintf("it%d_apply_batch_done", it)] = hm["apply.batch.done"]
+					counts[fmt.Sprintf("it%d_apply_entry", it)] = hm["apply.entry"]
+				}
+			}
 		}
 		counts["batch_pairs_answered"] = made
 		if !cl.settle(90*time.Second) || !cl.readAll(h) {
